@@ -179,12 +179,16 @@ func lowerASCII(s string) string {
 	return string(b)
 }
 
+// IsUnsafeMethod reports whether the method may change state on the origin
+// server (RFC 9110 §9.2.1). Every method that is not registered as safe in the
+// IANA HTTP Method Registry, including unknown extension methods, is unsafe.
 func IsUnsafeMethod(method string) bool {
 	switch method {
-	case http.MethodPost, http.MethodPut, http.MethodDelete, http.MethodPatch:
-		return true
-	default:
+	case http.MethodGet, http.MethodHead, http.MethodOptions, http.MethodTrace,
+		"PRI", "PROPFIND", "REPORT", "SEARCH":
 		return false
+	default:
+		return true
 	}
 }
 
